@@ -608,7 +608,7 @@ def run_property(pid, tier, seed, only=None, jobs=None):
     }
     os.makedirs(os.path.join(VERIF, "evidence"), exist_ok=True)
     with open(os.path.join(VERIF, "evidence", pid + ".json"), "w") as f:
-        json.dump(evid, f, indent=1, allow_nan=False, default=_nanfix, sort_keys=True)
+        json.dump(_sanitize(evid), f, indent=1, allow_nan=False, default=_nanfix, sort_keys=True)
 
     # open findings whose witness still fails
     for e in findings:
@@ -649,6 +649,17 @@ def run_property(pid, tier, seed, only=None, jobs=None):
 
 def _nanfix(o):
     return str(o)
+
+
+def _sanitize(o):
+    """JSON-compliant copy: non-finite floats become strings."""
+    if isinstance(o, float):
+        return o if math.isfinite(o) else repr(o)
+    if isinstance(o, dict):
+        return {str(k): _sanitize(v) for k, v in o.items()}
+    if isinstance(o, (list, tuple)):
+        return [_sanitize(v) for v in o]
+    return o
 
 
 def _tail(path, n=1500):
